@@ -7,6 +7,23 @@ from core import Corr, Violation, run_driver
 from extract import pyexpr
 
 ID = "C13"
+#: functions the hand-written model transcribes: their control skeleton (extract/shape.py) is regenerated into
+#: Gen/C13.lean and compared with the literal in Properties/C13.lean (`modelled_functions_have_the_transcribed_shape`)
+SHAPES = [
+    ("shapeFctFit", "mlinsights/mlmodel/sklearn_transform_inv_fct.py", "FunctionReciprocalTransformer.fit"),
+    ("shapeFctTransform", "mlinsights/mlmodel/sklearn_transform_inv_fct.py", "FunctionReciprocalTransformer.transform"),
+    ("shapeFctInv", "mlinsights/mlmodel/sklearn_transform_inv_fct.py", "FunctionReciprocalTransformer.get_fct_inv"),
+    ("shapePermFit", "mlinsights/mlmodel/sklearn_transform_inv_fct.py", "PermutationReciprocalTransformer.fit"),
+    ("shapePermTransform", "mlinsights/mlmodel/sklearn_transform_inv_fct.py", "PermutationReciprocalTransformer.transform"),
+    ("shapePermInv", "mlinsights/mlmodel/sklearn_transform_inv_fct.py", "PermutationReciprocalTransformer.get_fct_inv"),
+    ("shapeRegFit", "mlinsights/mlmodel/target_predictors.py", "TransformedTargetRegressor2.fit"),
+    ("shapeRegPredict", "mlinsights/mlmodel/target_predictors.py", "TransformedTargetRegressor2.predict"),
+    ("shapeClfFit", "mlinsights/mlmodel/target_predictors.py", "TransformedTargetClassifier2.fit"),
+    ("shapeClfApply", "mlinsights/mlmodel/target_predictors.py", "TransformedTargetClassifier2._apply"),
+    ("shapeClfClasses", "mlinsights/mlmodel/target_predictors.py", "TransformedTargetClassifier2.classes_"),
+    ("shapeClfPredict", "mlinsights/mlmodel/target_predictors.py", "TransformedTargetClassifier2.predict"),
+    ("shapeClfPredictProba", "mlinsights/mlmodel/target_predictors.py", "TransformedTargetClassifier2.predict_proba"),
+]
 SRC_FCT = "mlinsights/mlmodel/sklearn_transform_inv_fct.py"
 SRC_TGT = "mlinsights/mlmodel/target_predictors.py"
 LEAN_TARGETS = ["MlVerif.Model.FctTable", "MlVerif.Gen.C13", "MlVerif.Model.Perm",
@@ -952,6 +969,59 @@ def check_perm_history(seed):
     return bad
 
 
+def check_failed_refit(seed):
+    """History: a successful fit, then a refit on OTHER labels that fails inside the wrapped classifier (NaN feature)
+    after the target transformer was refitted.  Afterwards the object either refuses to predict or still predicts
+    ORIGINAL labels with `classes_[j]` naming probability column j - of the fit that succeeded or of a consistent
+    model; it never decodes one fit's classifier with another fit's permutation."""
+    import random
+    import numpy
+    from sklearn.linear_model import LogisticRegression
+    from sklearn.tree import DecisionTreeClassifier
+    from mlinsights.mlmodel import TransformedTargetClassifier2
+    rng = random.Random(seed)
+    bad = []
+    n = 24
+    X = numpy.array([[float(i % 6), float((i * 5) % 7)] for i in range(n)])
+    la = [10, 20, 30]
+    ya = numpy.array([la[int(X[i, 0]) % 3] for i in range(n)])
+    lb = rng.choice([[30, 10, 20], [7, 8, 9], [20, 30, 10]])
+    yb = numpy.array([lb[int(X[i, 1]) % 3] for i in range(n)])
+    for which in ("logreg", "tree"):
+        base = LogisticRegression(max_iter=200) if which == "logreg" else DecisionTreeClassifier(max_depth=3, random_state=0)
+        tag = "TransformedTargetClassifier2[%s,failed-refit]" % which
+        try:
+            m = TransformedTargetClassifier2(base, transformer="permute")
+            m.fit(X, ya)
+            before = (numpy.asarray(m.predict(X)).tolist(), numpy.asarray(m.predict_proba(X)).tolist(),
+                      numpy.asarray(m.classes_).tolist())
+        except Exception:  # noqa: BLE001  (judged by the other oracles)
+            continue
+        Xbad = X.copy()
+        Xbad[3, 0] = numpy.nan
+        try:
+            m.fit(Xbad, yb)
+            continue            # this classifier accepts NaN: no failure, nothing to check
+        except Exception:  # noqa: BLE001
+            pass
+        try:
+            after = (numpy.asarray(m.predict(X)).tolist(), numpy.asarray(m.predict_proba(X)).tolist(),
+                     numpy.asarray(m.classes_).tolist())
+        except Exception:  # noqa: BLE001
+            continue            # refusing to predict after a failed fit is fine
+        if after != before:
+            # a consistent model of the second label set would also do: labels among lb, columns named by classes_
+            pred, proba, classes = after
+            ok = set(pred) <= set(classes) and all(classes[int(numpy.argmax(r))] == p for r, p in zip(proba, pred)) \
+                and sorted(classes) == sorted(set(yb.tolist()))
+            # ... but such a model cannot exist: the classifier of the second fit never finished training
+            bad.append((tag + ":mixed-state", "after a refit that failed inside the wrapped classifier the object predicts with "
+                        "the first fit's classifier decoded by the second fit's permutation",
+                        {"predict": pred[:8], "classes_": classes, "self_consistent": bool(ok)},
+                        {"either": "raises", "or_predict": before[0][:8], "classes_": before[2]}))
+    return bad
+
+
 def _size(inp):
     return len(json_dumps(inp))
 
@@ -1059,6 +1129,13 @@ def search(ctx, hints):
         evals += 1
         nontriv.add(("perm-history", s1))
         report(bad, {"kind": "perm-history", "seed": s1})
+    # (f) a refit that fails inside the wrapped classifier after the target transformer was refitted
+    for t in range(ctx.pick(3, 20)):
+        s1 = rng.randrange(1 << 20)
+        bad = check_failed_refit(s1)
+        evals += 1
+        nontriv.add(("failed-refit", s1))
+        report(bad, {"kind": "failed-refit", "seed": s1})
     # dedupe by key, keep the smallest input
     best = {}
     for v in found:
@@ -1086,6 +1163,8 @@ def replay(ctx, item):
         bad = check_shared_transformer(inp["seed"])
     elif kind == "perm-history":
         bad = check_perm_history(inp["seed"])
+    elif kind == "failed-refit":
+        bad = check_failed_refit(inp["seed"])
     else:
         raise ValueError("unknown replay kind %r" % kind)
     best = {}
